@@ -160,6 +160,38 @@ def rotFromTo [Div K] (u v : V3 K) : M3 K :=
    k * (w.y * w.x) + w.z, c + k * (w.y * w.y), k * (w.y * w.z) - w.x,
    k * (w.z * w.x) - w.y, k * (w.z * w.y) + w.x, c + k * (w.z * w.z)⟩
 
+/-- `rotation_matrix_from_to(u, v)` in 2d for unit vectors: the rotation by the angle
+`sign(⟨u⊥, v⟩)·arccos⟨u, v⟩`, i.e. with `cos = ⟨u, v⟩` and `sin = ⟨u⊥, v⟩`, `u⊥ = (-u₁, u₀)`. -/
+def rotFromTo2 (u v : V2 K) : M2 K :=
+  let c := V2.dot u v
+  let s := V2.dot (perp2 u) v
+  ⟨c, -s, s, c⟩
+
+/-! ### `transform_system`: the vectors a constructor derives when they are not given
+
+The default frame is carried along by the rotation taking the default principal vector to
+the given one (`p`, `a` below are the NORMALISED given vectors). -/
+
+/-- `Parallel2dGeometry` / `FanBeamGeometry`: default principal vector `(0,1)`
+(`det_pos_init` / `src_to_det_init`), default detector axis `(1,0)`.
+Returns (image of the principal default, derived `det_axis_init`). -/
+def frame2 (p : V2 K) : V2 K × V2 K :=
+  let M := rotFromTo2 ⟨0, 1⟩ p
+  (M.mulVec ⟨0, 1⟩, M.mulVec ⟨1, 0⟩)
+
+/-- `Parallel3dAxisGeometry` / `ConeBeamGeometry`: default axis `(0,0,1)`, default
+`det_pos_init` / `src_to_det_init` `(0,1,0)`, default detector axes `(1,0,0), (0,0,1)`.
+Returns (image of the default axis, derived position/direction, derived axes 0 and 1). -/
+def frameAxis [Div K] (a : V3 K) : V3 K × V3 K × V3 K × V3 K :=
+  let M := rotFromTo ⟨0, 0, 1⟩ a
+  (M.mulVec ⟨0, 0, 1⟩, M.mulVec ⟨0, 1, 0⟩, M.mulVec ⟨1, 0, 0⟩, M.mulVec ⟨0, 0, 1⟩)
+
+/-- `Parallel3dEulerGeometry`: default `det_pos_init` `(0,1,0)`, default detector axes
+`(1,0,0), (0,0,1)`.  Returns (image of the default position, derived axes 0 and 1). -/
+def frameEuler [Div K] (p : V3 K) : V3 K × V3 K × V3 K :=
+  let M := rotFromTo ⟨0, 1, 0⟩ p
+  (M.mulVec ⟨0, 1, 0⟩, M.mulVec ⟨1, 0, 0⟩, M.mulVec ⟨0, 0, 1⟩)
+
 /-! ## detectors (`odl/tomo/geometry/detector.py`)
 
 A detector parameter is passed together with the cosines / sines the curved detectors
